@@ -18,7 +18,13 @@ CONFIG = {
     }],
     "level_note": "PARTIAL for 'without an internal crash': Go-level panics inside op functions are outside the model; that half "
                   "is decided only by the fuzz search (panicError must never be observed)",
-    "rule": "f: one evaluation through EvalSignatureFull / EvalContract of a byte string drawn from: structured random programs "
+    "rule": "e (all tiers, deterministic, ~15600 programs): a directed stream for every immediate kind with extreme encodings -- "
+            "9/10-byte, overflowing, truncated and non-canonical varints around 2^63 / 2^64-1 / MinInt64 / MaxInt64 for the signed "
+            "branch offsets of b/bz/bnz/callsub (incl. offsets that put pc+size+offset exactly on and just past MaxInt64), int16 "
+            "offsets +-32767/-32768, switch/match tables with 255 labels (full, cut short, ending inside the table), huge pushint "
+            "values and pushbytes / constant-block count and length prefixes, byte immediates 255 -- for versions 0..LogicVersion+1 "
+            "and both modes, through the real Check* AND Eval* entry points (a panicError from either is a violation). "
+            "f: one evaluation through EvalSignatureFull / EvalContract of a byte string drawn from: structured random programs "
             "(constant blocks, typed argument pushes, any instruction of the version with random immediates, canned shapes driving "
             "byte length / stack depth / recursion to their limits) 55%, mutations of those (byte flips, inserts, truncation) 30%, "
             "valid-opcode soup 10%, pure random bytes and odd version encodings 5%; versions 0..LogicVersion+3 uniformly, both modes, "
